@@ -336,3 +336,8 @@ def run(chk, S: Session):
     # observation damping of every linearised model (C11) and the calibration of everything the filter returns, including the initial marginal (C03)
     borrow(chk, S, rb, "C11", lambda r, c: r == "R-C11-5" and ("damping" in c or "undamped" in c))
     borrow(chk, S, rb, "C03", lambda r, c: r == "R-C03-3" and "filter" in c)
+    # an option passed to a constructor arrives in the attribute of its own name (the rules above read options through those attributes)
+    from .ctor_wiring import ctor_wiring_rules
+
+    rcw = chk.rule("R-C02-W", "constructor wiring of the three solver classes: every attribute that carries a constructor parameter's name holds that parameter, not another one", floor=10)
+    ctor_wiring_rules(chk, S, rcw, [c.qualname for c in S.p.subclasses(SOLVERS + ".ProbabilisticSolver")])
